@@ -677,24 +677,24 @@ fn __action6<
     node("F#1", l, r, vec![Tree::from(c0)])
 }
 
-#[allow(clippy::needless_lifetimes)]
+#[allow(clippy::needless_lifetimes, clippy::clone_on_copy)]
 fn __action7<
 >(
     __lookbehind: &i64,
     __lookahead: &i64,
 ) -> i64
 {
-    *__lookbehind
+    __lookbehind.clone()
 }
 
-#[allow(clippy::needless_lifetimes)]
+#[allow(clippy::needless_lifetimes, clippy::clone_on_copy)]
 fn __action8<
 >(
     __lookbehind: &i64,
     __lookahead: &i64,
 ) -> i64
 {
-    *__lookahead
+    __lookahead.clone()
 }
 
 #[allow(clippy::too_many_arguments, clippy::needless_lifetimes,
